@@ -628,6 +628,13 @@ h1_chunked (request_st * const r, chunkqueue * const cq, chunkqueue * const dst_
                     while (*s == ' ' || *s == '\t') ++s;
                     if (*s != '\r' && *s != ';')
                         p = NULL;
+                    else /* CR only before LF; no other CTLs in chunk-ext */
+                        for (; s != (unsigned char *)p-2; ++s) {
+                            if ((*s < 32 && *s != '\t') || *s == 127) {
+                                p = NULL;
+                                break;
+                            }
+                        }
                 }
                 if (NULL == p) {
                     log_error(r->conf.errh, __FILE__, __LINE__,
